@@ -40,7 +40,10 @@ impl SwiftField for Field50NoOption {
     where
         Self: Sized,
     {
-        let lines: Vec<String> = input.lines().map(|line| line.to_string()).collect();
+        let lines: Vec<String> = super::field_utils::content_lines(input, "Field 50NoOption")?
+            .into_iter()
+            .map(|line| line.to_string())
+            .collect();
 
         if lines.is_empty() {
             return Err(ParseError::InvalidFormat {
@@ -95,7 +98,7 @@ impl SwiftField for Field50A {
     where
         Self: Sized,
     {
-        let lines: Vec<&str> = input.lines().collect();
+        let lines = super::field_utils::content_lines(input, "Field 50A")?;
 
         if lines.is_empty() {
             return Err(ParseError::InvalidFormat {
@@ -215,7 +218,7 @@ impl SwiftField for Field50F {
     where
         Self: Sized,
     {
-        let lines: Vec<&str> = input.lines().collect();
+        let lines = super::field_utils::content_lines(input, "Field 50F")?;
 
         if lines.len() < 2 {
             return Err(ParseError::InvalidFormat {
@@ -313,7 +316,7 @@ impl SwiftField for Field50K {
     where
         Self: Sized,
     {
-        let lines: Vec<&str> = input.lines().collect();
+        let lines = super::field_utils::content_lines(input, "Field 50K")?;
 
         if lines.is_empty() {
             return Err(ParseError::InvalidFormat {
@@ -472,7 +475,7 @@ impl SwiftField for Field50G {
     where
         Self: Sized,
     {
-        let lines: Vec<&str> = input.lines().collect();
+        let lines = super::field_utils::content_lines(input, "Field 50G")?;
 
         if lines.len() != 2 {
             return Err(ParseError::InvalidFormat {
@@ -526,7 +529,7 @@ impl SwiftField for Field50H {
     where
         Self: Sized,
     {
-        let lines: Vec<&str> = input.lines().collect();
+        let lines = super::field_utils::content_lines(input, "Field 50H")?;
 
         if lines.len() < 2 {
             return Err(ParseError::InvalidFormat {
@@ -671,7 +674,7 @@ impl SwiftField for Field50OrderingCustomerFGH {
     where
         Self: Sized,
     {
-        let lines: Vec<&str> = input.lines().collect();
+        let lines = super::field_utils::content_lines(input, "Field 50OrderingCustomerFGH")?;
 
         if lines.len() >= 2 {
             // Check if second line is a BIC
@@ -762,7 +765,7 @@ impl SwiftField for Field50OrderingCustomerAFK {
         Self: Sized,
     {
         // Try Option A first (numbered lines)
-        let lines: Vec<&str> = input.lines().collect();
+        let lines = super::field_utils::content_lines(input, "Field 50OrderingCustomerAFK")?;
 
         // Check for numbered lines (characteristic of Option A)
         let mut has_numbered_lines = false;
@@ -865,7 +868,7 @@ impl SwiftField for Field50OrderingCustomerNCF {
     where
         Self: Sized,
     {
-        let lines: Vec<&str> = input.lines().collect();
+        let lines = super::field_utils::content_lines(input, "Field 50OrderingCustomerNCF")?;
 
         // Try Option C (single line BIC)
         if lines.len() == 1
@@ -946,7 +949,7 @@ impl SwiftField for Field50Creditor {
         Self: Sized,
     {
         // Check for numbered lines (characteristic of Option A)
-        let lines: Vec<&str> = input.lines().collect();
+        let lines = super::field_utils::content_lines(input, "Field 50Creditor")?;
 
         for line in &lines {
             let mut chars = line.chars();
